@@ -3,7 +3,9 @@ package p06
 import (
 	"encoding/hex"
 	"fmt"
+	"runtime"
 	"strings"
+	"sync"
 
 	"github.com/btcsuite/btcd/btcec/v2"
 	"github.com/btcsuite/btcd/btcec/v2/ecdsa"
@@ -107,7 +109,7 @@ func resolveOracles(bases []string, whole []bool) []string {
 			}
 			lines[k] = "C06 " + op + " " + bases[i] + " " + tok(i)
 		}
-		outs, err := core.RunLean("C06", lines)
+		outs, err := runLeanParallel(lines)
 		if err != nil {
 			panic(fmt.Sprintf("oracle resolution: %v", err))
 		}
@@ -145,4 +147,46 @@ func resolveOracles(bases []string, whole []bool) []string {
 		out[i] = tok(i)
 	}
 	return out
+}
+
+// runLeanParallel answers the lines with several driver processes (the answers are per line, so the
+// split is invisible).
+func runLeanParallel(lines []string) ([]string, error) {
+	workers := runtime.NumCPU()
+	if workers > 8 {
+		workers = 8
+	}
+	if len(lines) < 64 || workers < 2 {
+		return core.RunLean("C06", lines)
+	}
+	outs := make([]string, len(lines))
+	errs := make([]error, workers)
+	var wg sync.WaitGroup
+	chunk := (len(lines) + workers - 1) / workers
+	for w := 0; w < workers; w++ {
+		lo, hi := w*chunk, (w+1)*chunk
+		if lo >= len(lines) {
+			break
+		}
+		if hi > len(lines) {
+			hi = len(lines)
+		}
+		wg.Add(1)
+		go func(w, lo, hi int) {
+			defer wg.Done()
+			o, err := core.RunLean("C06", lines[lo:hi])
+			if err != nil {
+				errs[w] = err
+				return
+			}
+			copy(outs[lo:hi], o)
+		}(w, lo, hi)
+	}
+	wg.Wait()
+	for _, e := range errs {
+		if e != nil {
+			return nil, e
+		}
+	}
+	return outs, nil
 }
